@@ -81,23 +81,7 @@ func (g *gm) mgmtActions(withGC, withRestart bool) map[string]func(*rapid.T) {
 		}
 		g.applyPubNS(Op{K: "pubns", Name: name, Scope: list})
 	}
-	// a batch that is rejected as a whole, often followed by the client sending its valid part again
-	acts["rejectedBatch"] = func(t *rapid.T) {
-		g.t = t
-		if len(g.live()) == 0 {
-			t.Skip("no dataset")
-		}
-		op := g.genBatchOp()
-		op.K, op.Via = "badbatch", "store"
-		if len(op.Ents) > 4 {
-			op.Ents = op.Ents[:4]
-		}
-		g.applyBadBatch(op)
-		if rapid.IntRange(0, 2).Draw(t, "resend") > 0 {
-			g.applyBatch(Op{K: "batch", DS: op.DS, Via: rapid.SampledFrom([]string{"store", "parser"}).Draw(t, "via"), Ents: op.Ents})
-			g.cls["rejected-batch-then-resend"] = true
-		}
-	}
+	acts["rejectedBatch"] = g.rejectedBatchAction()
 	if withGC {
 		acts["gc"] = func(t *rapid.T) {
 			g.t = t
@@ -253,4 +237,25 @@ func TestVerif_C07_crash(t *testing.T) {
 		}
 		runCrashCase(t, ops, maxPlans, []string{"create.", "delete.", "rename."})
 	})
+}
+
+// rejectedBatchAction: a batch that is rejected as a whole (its last element
+// cannot be stored), often followed by the client sending its valid part again.
+func (g *gm) rejectedBatchAction() func(*rapid.T) {
+	return func(t *rapid.T) {
+		g.t = t
+		if len(g.live()) == 0 {
+			t.Skip("no dataset")
+		}
+		op := g.genBatchOp()
+		op.K, op.Via = "badbatch", "store"
+		if len(op.Ents) > 4 {
+			op.Ents = op.Ents[:4]
+		}
+		g.applyBadBatch(op)
+		if rapid.IntRange(0, 2).Draw(t, "resend") > 0 {
+			g.applyBatch(Op{K: "batch", DS: op.DS, Via: rapid.SampledFrom([]string{"store", "parser"}).Draw(t, "via"), Ents: op.Ents})
+			g.cls["rejected-batch-then-resend"] = true
+		}
+	}
 }
